@@ -3,7 +3,8 @@
 (* C37 - DT_NEEDED lists exactly the required libraries.                   *)
 (*                                                                         *)
 (* A configuration is a link line: a sequence of tokens                    *)
-(*    --as-needed | --no-as-needed | --push-state | --pop-state | <file>   *)
+(*    --as-needed | --no-as-needed | --whole-archive | --no-whole-archive  *)
+(*    | --push-state | --pop-state | <file>                                *)
 (* over files that are regular objects, archive members or shared          *)
 (* libraries; every file has the names it defines, references strongly and *)
 (* references weakly.                                                      *)
@@ -44,13 +45,14 @@ CONSTANTS Emit,      \* BOOLEAN: print REPLAY records from terminal states
 VARIABLES cfg,      \* the configuration (never changes)
           pc,       \* "parse" | "resolve" | "done" | "error"
           pos,      \* next token
-          stack,    \* wild's modifier stack (as_needed component)
+          stack,    \* wild's modifier stack: records [asn, wa] (as_needed, whole_archive)
           asn,      \* asn[f]: modifiers.as_needed recorded for file f
+          wha,      \* wha[f]: modifiers.whole_archive recorded for file f
           order,    \* files in command-line order
           loaded,   \* set of loaded files
           result    \* DT_NEEDED as written (sequence of file ids)
 
-vars == <<cfg, pc, pos, stack, asn, order, loaded, result>>
+vars == <<cfg, pc, pos, stack, asn, wha, order, loaded, result>>
 
 Toks == cfg.tokens
 Files == cfg.files
@@ -91,13 +93,15 @@ HiddenFrom(D, q, p) == \E a \in 1..(q - 1), b \in (q + 1)..(p - 1) : Matched(D, 
 
 TokPos(f) == CHOOSE p \in 1..Len(Toks) : Toks[p].t = "file" /\ Toks[p].f = f
 
-AsnDeclD(D, f) ==
+(* the state of one on/off modifier at file f: the last visible switch before it (default off) *)
+FlagDeclD(D, f, on, off) ==
     LET p == TokPos(f)
-        vis == {q \in 1..(p - 1) : Toks[q].t \in {"as", "noas"} /\ ~HiddenFrom(D, q, p)}
-    IN IF vis = {} THEN FALSE ELSE Toks[Max(vis)].t = "as"
+        vis == {q \in 1..(p - 1) : Toks[q].t \in {on, off} /\ ~HiddenFrom(D, q, p)}
+    IN IF vis = {} THEN FALSE ELSE Toks[Max(vis)].t = on
 
-(* asn table: for every file, is it under --as-needed? *)
-AsnTable == LET D == DepthTable IN [f \in FileIds |-> AsnDeclD(D, f)]
+(* asn table: for every file, is it under --as-needed?  wa table: under --whole-archive? *)
+AsnTable == LET D == DepthTable IN [f \in FileIds |-> FlagDeclD(D, f, "as", "noas")]
+WaTable == LET D == DepthTable IN [f \in FileIds |-> FlagDeclD(D, f, "wa", "nowa")]
 AsnDecl(f) == AsnTable[f]
 
 OrderDecl == LET ps == {p \in 1..Len(Toks) : Toks[p].t = "file"}
@@ -115,7 +119,8 @@ LoadedRegFrom(L) ==
     LET add == {m \in Members \ L : \E g \in L : \E n \in Strong(g) \cap Defs(m) :
                                        ~\E o \in L : n \in Defs(o)}
     IN IF add = {} THEN L ELSE LoadedRegFrom(L \cup add)
-LoadedReg == LoadedRegFrom(Objs)
+(* --whole-archive loads every member; it has no effect on shared libraries *)
+LoadedReg == LET W == WaTable IN LoadedRegFrom(Objs \cup {m \in Members : W[m]})
 
 FirstIn(seq, S) == IF \E k \in 1..Len(seq) : seq[k] \in S
                    THEN seq[Min({k \in 1..Len(seq) : seq[k] \in S})] ELSE 0
@@ -134,17 +139,17 @@ GnuEmpty == [defReg |-> {}, defDyn |-> {}, refS |-> {}, needed |-> {}]
 
 GnuAddReg(s, f) == [s EXCEPT !.defReg = @ \cup Defs(f), !.refS = @ \cup Strong(f)]
 
-GnuStep(A, s, f) ==
+GnuStep(A, W, s, f) ==
     LET undef == (s.refS \ s.defReg) \ s.defDyn IN
     CASE Kind(f) = "obj" -> GnuAddReg(s, f)
-      [] Kind(f) = "member" -> IF Defs(f) \cap undef # {} THEN GnuAddReg(s, f) ELSE s
+      [] Kind(f) = "member" -> IF W[f] \/ Defs(f) \cap undef # {} THEN GnuAddReg(s, f) ELSE s
       [] Kind(f) = "lib" ->
             IF ~A[f] \/ Defs(f) \cap undef # {}
             THEN [s EXCEPT !.defDyn = @ \cup Defs(f), !.needed = @ \cup {f}]
             ELSE s
 
-RECURSIVE GnuScan(_, _, _)
-GnuScan(A, O, k) == IF k = 0 THEN GnuEmpty ELSE GnuStep(A, GnuScan(A, O, k - 1), O[k])
+RECURSIVE GnuScan(_, _, _, _)
+GnuScan(A, W, O, k) == IF k = 0 THEN GnuEmpty ELSE GnuStep(A, W, GnuScan(A, W, O, k - 1), O[k])
 
 (* the deviation class: an as-needed library is the first definer of a name on the command line,
    a loaded regular object defines the same name (so the reference is not bound to the library),
@@ -161,7 +166,7 @@ Decl ==
         O == OrderDecl
         LR == LoadedReg
         nsf == NeededSetFinalW(A, O, LR)
-        g == GnuScan(A, O, Len(O))
+        g == GnuScan(A, WaTable, O, Len(O))
     IN [asn |-> A, order |-> O,
         finalSet |-> nsf,
         final |-> SelectSeq(O, LAMBDA f : f \in nsf),
@@ -178,20 +183,24 @@ Decl ==
 InitWith(c) ==
     /\ cfg = c
     /\ pc = "parse" /\ pos = 1
-    /\ stack = <<FALSE>>                                   \* Modifiers::default().as_needed
+    /\ stack = <<[asn |-> FALSE, wa |-> FALSE]>>           \* Modifiers::default()
     /\ asn = [f \in 1..Len(cfg.files) |-> FALSE]
+    /\ wha = [f \in 1..Len(cfg.files) |-> FALSE]
     /\ order = <<>> /\ loaded = {} /\ result = <<>>
 
 (* One token of args/elf.rs applied to (stack, asn, order, error flag). *)
 TokStep(st, tk) ==
     LET top == st.stack[Len(st.stack)] IN
-    CASE tk.t = "as" -> [st EXCEPT !.stack = [@ EXCEPT ![Len(@)] = TRUE]]
-      [] tk.t = "noas" -> [st EXCEPT !.stack = [@ EXCEPT ![Len(@)] = FALSE]]
+    CASE tk.t = "as" -> [st EXCEPT !.stack = [@ EXCEPT ![Len(@)].asn = TRUE]]
+      [] tk.t = "noas" -> [st EXCEPT !.stack = [@ EXCEPT ![Len(@)].asn = FALSE]]
+      [] tk.t = "wa" -> [st EXCEPT !.stack = [@ EXCEPT ![Len(@)].wa = TRUE]]
+      [] tk.t = "nowa" -> [st EXCEPT !.stack = [@ EXCEPT ![Len(@)].wa = FALSE]]
       [] tk.t = "push" -> [st EXCEPT !.stack = Append(@, top)]
       [] tk.t = "pop" ->
            (* modifier_stack.pop(); if modifier_stack.is_empty() { bail!("Mismatched --pop-state") } *)
            [st EXCEPT !.stack = SubSeq(@, 1, Len(@) - 1), !.err = (Len(st.stack) = 1)]
-      [] tk.t = "file" -> [st EXCEPT !.asn = [@ EXCEPT ![tk.f] = top], !.order = Append(@, tk.f)]
+      [] tk.t = "file" -> [st EXCEPT !.asn = [@ EXCEPT ![tk.f] = top.asn], !.wha = [@ EXCEPT ![tk.f] = top.wa],
+                                     !.order = Append(@, tk.f)]
 
 (* Run the argument parser over all tokens from position p (stops at an error). *)
 RECURSIVE RunTo(_, _)
@@ -199,18 +208,19 @@ RunTo(st, p) ==
     IF p > Len(Toks) \/ st.err THEN [st |-> st, p |-> p]
     ELSE RunTo(TokStep(st, Toks[p]), p + 1)
 
-(* grouping.rs: is_optional *)
-OptionalW(A, f) == Kind(f) = "member" \/ (Kind(f) = "lib" /\ A[f])
+(* grouping.rs: is_optional:
+     (has_archive_semantics() && !modifiers.whole_archive) || (is_dynamic() && modifiers.as_needed) *)
+OptionalW(A, W, f) == (Kind(f) = "member" /\ ~W[f]) \/ (Kind(f) = "lib" /\ A[f])
 
 (* Argument parsing is sequential and deterministic: one step.  Files that are not optional are
    loaded from the start (resolution.rs: work_items_do for every non-optional file). *)
 Parse ==
     /\ pc = "parse"
-    /\ LET r == RunTo([stack |-> stack, asn |-> asn, order |-> order, err |-> FALSE], pos) IN
+    /\ LET r == RunTo([stack |-> stack, asn |-> asn, wha |-> wha, order |-> order, err |-> FALSE], pos) IN
        /\ pos' = r.p
-       /\ stack' = r.st.stack /\ asn' = r.st.asn /\ order' = r.st.order
+       /\ stack' = r.st.stack /\ asn' = r.st.asn /\ wha' = r.st.wha /\ order' = r.st.order
        /\ pc' = IF r.st.err THEN "error" ELSE "resolve"
-       /\ loaded' = IF r.st.err THEN {} ELSE {f \in FileIds : ~OptionalW(r.st.asn, f)}
+       /\ loaded' = IF r.st.err THEN {} ELSE {f \in FileIds : ~OptionalW(r.st.asn, r.st.wha, f)}
     /\ UNCHANGED <<cfg, result>>
 
 (* symbol_db: name_to_id holds the first definition in file order, whatever kind of file it is in *)
@@ -227,7 +237,7 @@ LoadOne ==
     /\ \E f \in loaded : \E n \in Strong(f) :
           /\ Requests(f, n) /\ FirstDef(n) \notin loaded
           /\ loaded' = loaded \cup {FirstDef(n)}
-    /\ UNCHANGED <<cfg, pc, pos, stack, asn, order, result>>
+    /\ UNCHANGED <<cfg, pc, pos, stack, asn, wha, order, result>>
 
 Finish ==
     /\ pc = "resolve"
@@ -235,7 +245,7 @@ Finish ==
     /\ pc' = "done"
     (* write_dynamic_file -> write_so_name for each loaded dynamic file, in file order *)
     /\ result' = SelectSeq(order, LAMBDA f : Kind(f) = "lib" /\ f \in loaded)
-    /\ UNCHANGED <<cfg, pos, stack, asn, order, loaded>>
+    /\ UNCHANGED <<cfg, pos, stack, asn, wha, order, loaded>>
 
 Next == Parse \/ LoadOne \/ Finish
 SpecFrom(init) == init /\ [][Next]_vars /\ WF_vars(Next)
@@ -257,6 +267,7 @@ StackRefinesDecl ==
           /\ ValidTokens
           /\ order = OrderDecl
           /\ asn = AsnTable
+          /\ wha = WaTable
 
 ConformsD(D) == result = D.final \/ (~D.gnuFails /\ result = D.gnu)
 
@@ -290,7 +301,9 @@ Hash(i) == LET a == (i + Seed * 7 + 13) % 46337
                h == (a * a) % 46337
            IN ((h + (i \div 46337) + Seed) * 31337) % 46337
 
-Sampled == Stride <= 1 \/ Hash(cfg.idx) % Stride = 0
+(* link lines with an as-needed library inside a --whole-archive region are always emitted *)
+AsNeededInWholeArchive == pc = "done" /\ \E l \in Libs : asn[l] /\ wha[l]
+Sampled == Stride <= 1 \/ Hash(cfg.idx) % Stride = 0 \/ AsNeededInWholeArchive
 
 Rec ==
     LET D == IF pc = "done" THEN Decl ELSE [asn |-> <<>>, final |-> <<>>, gnuFails |-> TRUE, gnu |-> <<>>, dev |-> FALSE] IN
@@ -304,7 +317,8 @@ Rec ==
      gnu_fails |-> D.gnuFails,
      gnu |-> IF D.gnuFails THEN <<>> ELSE D.gnu,
      conforms |-> IF pc = "done" THEN ConformsD(D) ELSE TRUE,
-     dev |-> D.dev]
+     dev |-> D.dev,
+     must |-> AsNeededInWholeArchive]
 
 EmitReplay == (Terminal /\ Emit /\ Sampled) => PrintT(<<"REPLAY", ToJson(Rec)>>)
 =============================================================================
